@@ -1501,6 +1501,10 @@ def check_tdm(ctx, case):
     problems = [p for p in conformance(layout_ops, sd["gate_parameters"], cs, carr) if p[0] != "atol"]
     if problems:
         kind, detail = problems[0]
+        if not sd["gate_parameters"] and kind in ("sequence", "inconsistent", "dagger"):
+            # open finding X2: without gate_parameters Program.compile never calls validate_gate_parameters
+            return ctx.fail("conformance.no_layout_check_without_gate_parameters", "device specification without gate_parameters: %s returned a "
+                            "circuit that does not match the device layout (%s)" % (compiler, detail))
         if kind == "dagger":
             return ctx.fail("conformance.daggered_gate_passes_validation", "%s: %s" % (compiler, detail))
         if kind == "constant":
